@@ -250,6 +250,11 @@ fn fixed_values(r: &mut Rng) -> Vec<Value> {
     let mut c: Vec<Value> = vec![Value::Null, Value::Bool(true), Value::Bool(false), Value::Array(vec![]), Value::Object(Map::new()),
                                  Value::Array(vec![Value::Array(vec![]), Value::Object(Map::new())])];
     for i in INTS { c.push(Value::Number(if *i < 0 { Number::from(*i as i64) } else { Number::from(*i as u64) })); }
+    // numbers that enter a Value through the 128-bit constructors (they must be the same Numbers the parser builds)
+    for x in [0i128, 1, 5, -1, -5, i64::MAX as i128, i64::MIN as i128, u64::MAX as i128, i64::MAX as i128 + 1, 1 << 40, -(1 << 40)] {
+        if let Some(n) = Number::from_i128(x) { c.push(Value::Number(n.clone())); c.push(Value::Array(vec![Value::Number(n), Value::Null])); }
+        if x >= 0 { if let Some(n) = Number::from_u128(x as u128) { c.push(Value::Number(n)); } }
+    }
     for s in ADV { c.push(Value::String(s.to_string())); }
     for s in crate::prog::FIXED_STRS { c.push(Value::String(s.to_string())); }
     // every control character and a few others as a one-character string, as a key, and in the middle of a string
